@@ -150,7 +150,8 @@ def arg_value(a):
     if k == "svc":
         return "@" + a["v"]
     if k == "tagged":
-        return "!tagged " + a["v"]
+        r = _sep_state["rng"]
+        return "!tagged" + (r.choice(TAGGED_SEPARATORS) if r is not None else " ") + a["v"]
     if k == "value":
         return "!value " + a["v"]
     if k == "self":
@@ -167,7 +168,16 @@ def arg_value(a):
 PRIO_MAP = {1000001: 2147483647, 1000002: 202403010800, 1000003: 202403010900, -1000001: -(2 ** 40)}     # TLC integers are 32 bit
 
 
-def service_doc(s, explicit=None):
+TAGGED_SEPARATORS = [" ", " ", "  ", "\t", "\n", " \n ", "\r\n"]      # `!tagged\s+name`: any white space separates keyword and tag
+_sep_state = {"rng": None}
+
+
+def vary_separators(rng):
+    """from now on `!tagged` arguments are written with a separator drawn from TAGGED_SEPARATORS (None: a single blank)"""
+    _sep_state["rng"] = rng
+
+
+def service_doc(s, explicit=None, todo_false=None):
     """explicit: a Random; when given, empty collections are sometimes written out ([] / {} / ~) instead of omitted"""
     d = {}
     if explicit is not None:
@@ -176,6 +186,8 @@ def service_doc(s, explicit=None):
                 d[yk] = explicit.choice([empty, None])
     if s["todo"] != UNSET:
         d["todo"] = s["todo"] == "true"
+    elif todo_false is not None and todo_false.random() < 0.4:
+        d["todo"] = False                      # saying it explicitly changes nothing (single-file configurations only)
     for key, yk in (("getter", "getter"), ("type", "type"), ("value", "value"), ("ctor", "constructor")):
         if s[key] != UNSET:
             d[yk] = s[key]
@@ -206,7 +218,7 @@ def service_doc(s, explicit=None):
     return d
 
 
-def cfg_doc(cfg, explicit=None):
+def cfg_doc(cfg, explicit=None, todo_false=None):
     """abstract cfg (or partial cfg = one file) -> nested python structure mirroring the YAML."""
     doc = {}
     if cfg.get("version", UNSET) != UNSET:
@@ -230,7 +242,7 @@ def cfg_doc(cfg, explicit=None):
         doc["parameters"] = {n: arg_value(a) for n, a in params.items()}
     services = fix_map(cfg.get("services", {}))
     if services:
-        doc["services"] = {n: service_doc(s, explicit) for n, s in services.items()}
+        doc["services"] = {n: service_doc(s, explicit, todo_false) for n, s in services.items()}
     if explicit is not None:
         if not cfg.get("decorators") and explicit.random() < 0.5:
             doc["decorators"] = explicit.choice([[], None])
@@ -243,8 +255,8 @@ def cfg_doc(cfg, explicit=None):
     return doc
 
 
-def to_yaml(cfg, rng=None, explicit=None):
-    doc = cfg_doc(cfg, explicit)
+def to_yaml(cfg, rng=None, explicit=None, todo_false=None):
+    doc = cfg_doc(cfg, explicit, todo_false)
     if not doc:
         return explicit.choice(["{}\n", "", "# nothing in this file\n"]) if explicit is not None else "{}\n"
     return emit(doc, rng) + "\n"
